@@ -21,7 +21,7 @@ from ..core import Family
 
 ID = "C09"
 READY = True
-LEAN_TARGETS = ["NauyacaVerif.Props.C09", "NauyacaVerif.Props.Translated"]
+LEAN_TARGETS = ["NauyacaVerif.Props.C09", "NauyacaVerif.Props.Tr.IsAllowed"]
 THEOREMS = [f"NauyacaVerif.C09.{t}" for t in (
     "acl_iff", "acl_response", "unparsed_refused", "contains_interval", "cross_family_never",
     "config_faithful", "default_deny_refuses_all", "disabled_admits",
